@@ -27,6 +27,7 @@ package scheduler
 // exactly one of Select / Abandoned (selcalls is the per-call count).
 //@ func (*InMemoryBuildQueue).Execute
 //@   props C07 C03 C05
+//@   at call Before#1 assert the-start-up-grace-period-is-judged-against-the-time-of-this-request: held(bq.lock) == 1 && arg0 == bq.now
 //@   at call Select#1 assert the-selector-chooses-among-the-size-classes-of-the-resolved-platform-queue:
 //@             pq == bq.platformQueues[platformQueueIndex] && arg1 == pq.sizeClasses
 //@   at call getOrCreateInvocation#2 assert the-task-is-queued-on-the-size-class-queue-that-was-selected:
@@ -49,6 +50,7 @@ package scheduler
 //@   ensures a-completed-task-stays-as-it-is: old(t.executeResponse) != nil ==> t.executeResponse == old(t.executeResponse) && t.stageChangeWakeup == old(t.stageChangeWakeup)
 //@   ensures final-completion-stores-the-response-the-caller-gave:
 //@             old(t.executeResponse) == nil && t.executeResponse != nil ==> t.executeResponse == executeResponse && t.stageChangeWakeup == nil
+//@   at call maybeStartCleanup#1 assert clean-up-of-a-background-operation-starts-only-after-its-exemption-ended: !arg0.mayExistWithoutWaiters
 //@   at call builtin.close#1 assert final-completion-wakes-every-waiter-after-the-response-is-in-place:
 //@             arg0 == t.stageChangeWakeup && t.executeResponse == executeResponse
 //@   ensures the-learner-of-the-task-gets-exactly-one-verdict:
@@ -217,7 +219,9 @@ package scheduler
 //@   ensures only-unused-non-root-invocations-are-removed: r0 ==> i.parent != nil && i.idleWorkersCount == 0
 //@   ensures unused-non-root-invocations-are-removed: !r0 ==> unchanged()
 //@ func (*operation).remove
-//@   props C06 C01 C04 C03
+//@   props C06 C01 C04 C03 C02
+//@   at call delete#2 assert a-removed-operation-can-no-longer-be-attached-to-by-name: old(len(o.task.operations)) != 1 ==> !(o.name in bq.operationsNameMap)
+//@   at call complete#1 assert the-name-is-unregistered-before-the-task-is-cancelled: !(o.name in bq.operationsNameMap)
 //@   at call complete#1 assert only-the-last-operation-of-a-task-cancels-it: old(len(o.task.operations)) == 1 && arg0 == old(o.task) && !arg3
 //@   ensures abandoned-operation-is-forgotten-by-its-task: old(len(o.task.operations)) != 1 ==> !(old(o.invocation) in old(o.task).operations)
 //@   ensures shared-executing-task-gives-back-the-share-of-the-abandoned-invocation:
@@ -340,10 +344,6 @@ package scheduler
 //@             old(w.currentTask) != nil && old(w.currentTask.retryCount) < bq.configuration.WorkerTaskRetryCount ==>
 //@             r1 == nil && w.currentTask == old(w.currentTask) && w.currentTask.retryCount == old(w.currentTask.retryCount) + 1
 //@   at call complete#1 assert gives-up-only-the-own-task-and-only-after-the-retries: arg0 == w.currentTask && arg0.retryCount >= bq.configuration.WorkerTaskRetryCount && !arg3
-//@ func (*worker).completeTask
-//@   props C01
-//@   requires executeResponse != nil
-//@   at call complete#1 assert completes-the-task-the-worker-was-given: arg0 == w.currentTask && arg3
 
 // ---------------------------------------------------------------------------
 // Heap helpers (C04, C01): which container/heap operation is used is decided
@@ -438,3 +438,40 @@ package scheduler
 //@   props C05
 //@   at call wakeUp#1 assert only-workers-parked-in-synchronize-are-woken: w.wakeup != nil && arg1 == scq
 //@   ensures the-drain-is-registered: drainKey in scq.drains
+
+// ---------------------------------------------------------------------------
+// Round 4 additions
+
+// The list of workers waiting in an invocation is an unordered array with
+// back-pointers: removing an entry moves the last entry into its place, and the
+// moved worker must learn its new position (C01: otherwise the next task handed
+// to it dequeues somebody else).
+//@ func (*idleSynchronizingWorkersList).dequeue
+//@   props C01 C04
+//@   requires 0 <= listIndex && listIndex < len(*l)
+//@   assume forall k int :: 0 <= k && k < len(*l) ==> (*l)[k].listIndex == &(*l)[k].worker.listIndex -- representation invariant: an entry points back at the position field of its own worker (set up where a worker is enqueued)
+//@   assume forall a int, b int :: 0 <= a && a < b && b < len(*l) ==> (*l)[a].worker != (*l)[b].worker -- representation invariant: a worker waits in the list at most once (enqueue panics with "Worker is already queued")
+//@   ensures one-entry-less: len(*l) == old(len(*l)) - 1
+//@   ensures the-removed-worker-knows-it-is-no-longer-listed: old((*l)[listIndex].worker).listIndex == -1
+//@   ensures the-entry-moved-into-the-gap-knows-its-new-position: listIndex < len(*l) ==> (*l)[listIndex].worker.listIndex == listIndex && (*l)[listIndex].worker == old((*l)[len(*l)-1].worker)
+
+// A completion report is applied to the worker's task only after the worker was
+// found to be running exactly the task it reports about (C02: a retransmitted
+// report about the previous task must not complete the next one with the wrong
+// response).
+//@ ghost map reportmatches(ref) int zero
+//@ func (*worker).completeTask
+//@   props C01 C02
+//@   trustcall complete -- the completed-state of a decoded synchronization request carries its ExecuteResponse message (a present protobuf message field is never nil)
+//@   at call isRunningCorrectTask#1 ghostset reportmatches[nil] = ite(r0, 1, 0)
+//@   at call complete#1 assert completes-the-task-the-worker-was-given: arg0 == w.currentTask && arg3
+//@   at call complete#1 assert only-after-the-report-was-matched-against-the-assigned-task: reportmatches(nil) == 1 && arg2 == executeResponse
+//@ func (*worker).updateTask
+//@   props C02
+//@   at call isRunningCorrectTask#1 assert the-report-is-matched-against-the-digest-it-names: arg1 == actionDigest
+
+// The no-waiter timeout of an operation is armed only while nobody waits on it
+// and it is not exempt (C03, C06).
+//@ func (*operation).maybeStartCleanup
+//@   props C03 C06 C02
+//@   at call add#1 assert armed-only-for-an-operation-nobody-waits-on: o.waiters == 0 && !o.mayExistWithoutWaiters && arg1 == &o.cleanupKey
